@@ -3,6 +3,7 @@ import EvyV.Driver.FloatOps
 import EvyV.Model.Index
 import EvyV.Driver.MapDrv
 import EvyV.Driver.BcDrv
+import EvyV.Driver.ExprDrv
 /-
 Line protocol driver (core-only, compiled as `lean_exe evyv`).
 One request per line, one answer per line. See DESIGN.md §3.2.
@@ -48,6 +49,7 @@ def handle (line : String) : String :=
   | "map" :: rest => MapDrv.handle rest
   | "bcverify" :: rest => BcDrv.handleVerify rest
   | "symtab" :: rest => BcDrv.handleSymtab rest
+  | "exprvm" :: rest => ExprDrv.handle rest
   | _ => "ERR unknown request"
 
 partial def loop (hin hout : IO.FS.Stream) : IO Unit := do
